@@ -320,6 +320,12 @@ def strip_common(tx: Text, keep_derive=True, extra_keep=(), drop_derive=()):
 def apply_renames(tx: Text, renames):
     ct = tx.ct
     for old, new in renames:
+        if old.startswith('.'):
+            # method-call rename: `.name(` => `.new(` (declared in the sidecar, logged as R7)
+            for i in range(1, len(ct) - 1):
+                if ct[i].kind == 'id' and ct[i].text == old[1:] and ct[i - 1].text == '.' and ct[i + 1].text == '(':
+                    tx.edit(ct[i].start, ct[i].end, new.lstrip('.'), 'R7', f'method {old} => {new}')
+            continue
         segs = old.split('::')
         n = len(segs)
         i = 0
@@ -567,9 +573,30 @@ class Gen:
                     tx.edit(ct[kw].start, ct[ob].start,
                             f'{{ let mut {iv}: usize = 0; while {iv} < {expr}.len()', 'R8', 'for-in-&mut desugared to index loop')
                     pending_inserts.append((ct[ob].start, '\n' + a.text.rstrip() + '\n', 'loop'))
-                    pending_inserts.append((ct[ob].end, f' let {pat} = &mut {expr}[{iv}];', 'R8'))
-                    pending_inserts.append((ct[rl.match_close(ct, ob)].start, f' {iv} += 1; ', 'R8'))
+                    # the counter is advanced *before* BODY so that `continue` in BODY keeps its meaning
+                    pending_inserts.append((ct[ob].end, f' let {pat} = &mut {expr}[{iv}]; {iv} += 1;', 'R8'))
                     pending_inserts.append((ct[rl.match_close(ct, ob)].end, ' }', 'R8'))
+                    continue
+                if a.opts.get('desugar') == 'values_mut':
+                    # R10: `for PAT in EXPR.values_mut() { BODY }` (EXPR an IndexMap place)  ==>
+                    #     { let mut __i: usize = 0; while __i < EXPR.len() INV { let PAT = EXPR.get_index_mut(__i).unwrap().1; __i += 1; BODY } }
+                    # ValuesMut yields `&mut` to the values of entries 0..len in index order, each once; the map's
+                    # length/keys cannot change inside the body because the map is mutably borrowed by the iterator.
+                    # The counter is advanced *before* BODY so that `continue` in BODY keeps its meaning.
+                    j = kw + 1
+                    while not (ct[j].kind == 'id' and ct[j].text == 'in'):
+                        if ct[j].text in ('(', '['): j = rl.match_close(ct, j)
+                        j += 1
+                    pat = src[ct[kw + 1].start:ct[j - 1].end]
+                    if not (ct[ob - 1].text == ')' and ct[ob - 2].text == '(' and ct[ob - 3].text == 'values_mut' and ct[ob - 4].text == '.'):
+                        raise SpecError(f'LOST-ANCHOR: {region}: loop {n} is not `for PAT in EXPR.values_mut()`')
+                    expr = src[ct[j + 1].start:ct[ob - 5].end]
+                    iv = a.opts.get('var', '__i')
+                    tx.edit(ct[kw].start, ct[ob].start,
+                            f'{{ let mut {iv}: usize = 0; while {iv} < {expr}.len()', 'R10', 'for-in-values_mut desugared to index loop')
+                    pending_inserts.append((ct[ob].start, '\n' + a.text.rstrip() + '\n', 'loop'))
+                    pending_inserts.append((ct[ob].end, f' let {pat} = {expr}.get_index_mut({iv}).unwrap().1; {iv} += 1;', 'R10'))
+                    pending_inserts.append((ct[rl.match_close(ct, ob)].end, ' }', 'R10'))
                     continue
                 if 'binder' in a.opts:
                     # for PAT in EXPR  ->  for PAT in binder: EXPR
